@@ -49,7 +49,7 @@ CLAIMED['C08'] = dict(
    design='5 C08')
 CLAIMED['C12'] = dict(
    category='proof',
-   text="PROOF of the keep-alive arithmetic for every K in [0,65535]: negotiated_keep_alive = Server Keep Alive if present else the configured value; assemble_op::compute_read_timeout = exactly 1500*K ms (no int overflow in 3*K*1000/2), duration::max for K=0; ping_op::compute_wait_time = K s, max for K=0; update_session_state (run on every CONNACK) cancels the ping timer exactly once on every path, so the ping loop re-arms with the newly negotiated keep-alive. NOT decided: when timers fire, transport latency, the ping/read loops as schedules.",
+   text="PROOF of the keep-alive arithmetic for every K in [0,65535]: negotiated_keep_alive = Server Keep Alive if present else the configured value; assemble_op::compute_read_timeout = exactly 1500*K ms (no int overflow in 3*K*1000/2), duration::max for K=0; ping_op::compute_wait_time = K s, max for K=0; update_session_state (run on every CONNACK) cancels the ping timer exactly once on every path, so the ping loop re-arms with the newly negotiated keep-alive. read_op arms the inactivity timer with exactly the wait it is given before the read/timer race starts; a timer that fires first abandons the connection to reconnect (never completes the read with a transport error). ping_op (every continuation): the ping timer is armed with exactly compute_wait_time() before it is awaited; an expired timer sends exactly one PINGREQ (encode_pingreq, unnumbered, unthrottled) and nothing re-arms until that write completes; after each PINGREQ (success or try_again) the timer is armed again with the then-current negotiated keep-alive; a cancelled timer (new keep-alive after a CONNACK) is re-armed without pinging; a closed client ends the loop. NOT decided: when timers fire, transport latency, the ping/read loops as schedules.",
    note="Opaque accessors (connack property storage, mqtt context) are ghost objects handed out by stubs with bodies; chrono durations are 64-bit tick counts with the unit conversions clang's AST shows.",
    design='5 C12')
 CLAIMED['C10'] = dict(
@@ -103,19 +103,25 @@ CLAIMED['C14'] = dict(
 
 CLAIMED['C04'] = dict(
    category='proof',
-   text="FRAGMENT, proved on every continuation of publish_rec_op (inbound PUBLISH): QoS bits 3 -> malformed DISCONNECT (0x81), nothing stored or sent; QoS 0 -> stored at once, no acknowledgement; QoS 1 -> PUBACK built by encode_puback with the same packet id, message stored only after that write succeeded; QoS 2 -> PUBREC with the same id, then a wait for (PUBREL, id); PUBCOMP (encode_pubcomp, same id) only after a decodable PUBREL with an admitted reason code, every such PUBREL is answered, otherwise malformed-disconnect and wait again; message stored only after the PUBCOMP write succeeded, try_again waits for the retransmitted PUBREL without storing (never PUBCOMP before PUBREL, QoS 2 stored once per exchange). BOUNDED (3 waiters quick / 5 thorough): replies::dispatch completes only the first waiter matching (code, id) with exactly the reply, stores an unmatched reply instead of delivering it; clear_pending_pubrels aborts exactly the PUBREL waiters once each and keeps the others. NOT decided: order of deliveries, at-least-once across drops, duplicate-waiter replacement in async_wait_reply (not built), channel capacity behaviour.",
+   text="FRAGMENT, proved on every continuation of publish_rec_op (inbound PUBLISH): QoS bits 3 -> malformed DISCONNECT (0x81), nothing stored or sent; QoS 0 -> stored at once, no acknowledgement; QoS 1 -> PUBACK built by encode_puback with the same packet id, message stored only after that write succeeded; QoS 2 -> PUBREC with the same id, then a wait for (PUBREL, id); PUBCOMP (encode_pubcomp, same id) only after a decodable PUBREL with an admitted reason code, every such PUBREL is answered, otherwise malformed-disconnect and wait again; message stored only after the PUBCOMP write succeeded, try_again waits for the retransmitted PUBREL without storing (never PUBCOMP before PUBREL, QoS 2 stored once per exchange). BOUNDED (3 waiters quick / 5 thorough): replies::dispatch completes only the first waiter matching (code, id) with exactly the reply, stores an unmatched reply instead of delivering it; clear_pending_pubrels aborts exactly the PUBREL waiters once each and keeps the others. read_message_op: a packet the assembler reports malformed is answered by DISCONNECT 0x81 and not dispatched; a PUBLISH is decoded over exactly [first,last) with its control byte and either handed to publish_rec_op exactly once BEFORE the next packet is requested, or (undecodable) rejected with DISCONNECT 0x81 and never dispatched; no_recovery cancels the client. NOT decided: order of deliveries, at-least-once across drops, duplicate-waiter replacement in async_wait_reply (not built), channel capacity behaviour.",
    note="Assumed: decode_publish yields a packet id exactly for QoS > 0; control_packet::of stores the id it is given; Asio adapters (prepend/consign) do not modify their arguments.",
    design='5 C04')
 
 CLAIMED['C11'] = dict(
-   category='other',
-   text="BOUNDED stand-in (waiting queue of at most 3 waiters quick / 6 thorough; each slot symbolic: live handler or emptied by per-operation cancellation): async_mutex -- lock() on a free mutex takes it and posts exactly one grant, on a held mutex appends the waiter at the back and grants nothing; unlock() hands the lock to the FIRST live waiter (emptied slots skipped), keeps _locked set across the hand-over, preserves the order of the waiters behind it, and releases the lock only when no live waiter is left; nobody is aborted by unlock; cancel() aborts every live waiter exactly once with operation_aborted, grants nobody and leaves the lock state alone; a per-operation cancellation signal (any type but none) aborts that waiter exactly once, empties its slot and never grants. Together: at most one holder at a time on these functions (the lock is granted only from unlock()/lock() while not held by anybody else). PROVED on reconnect_op: it asks for the connection lock first; an aborted wait never unlocks what it does not hold; every other completion releases the lock exactly once and BEFORE the handler runs; the lock is held across host rotation, backoff and handshake; the stream swap (replace_next_layer) happens under the lock, before it is released. NOT decided: that every multi-buffer write goes through the mutex (write_op not built), that the close/swap of the stream happens under the lock, executor re-entrancy, thread interleavings (strand assumed).",
-   note="A bounded check, never counted as proved. std::deque modelled as vector; tracked handler type erased to a non-null handle; bound executors (asio::post/dispatch + prepend) are recording stubs.",
+   category='proof',
+   text="FRAGMENT. PROVED on every continuation of reconnect_op (the only user of the connection lock for connecting): it asks for the lock first; a waiter whose wait was aborted (cancel()) completes with operation_aborted, never unlocks what it does not hold and never proceeds to connect; a waiter that obtains the lock after the stream was already replaced by another reconnect (stale trigger: s != _stream_ptr) releases the lock and reports try_again WITHOUT connecting; every other completion releases the lock exactly once and BEFORE the handler runs; the lock is held across host rotation, backoff and handshake, and the stream swap happens under it -- hence on these functions a connection attempt is started only by the holder of the lock. BOUNDED stand-in (waiting queue of at most 3 waiters quick / 6 thorough; each slot symbolic: live handler or emptied by per-operation cancellation): async_mutex -- lock() on a free mutex takes it and posts exactly one grant, on a held mutex appends the waiter at the back and grants nothing; unlock() hands the lock to the FIRST live waiter (arrival order, emptied slots skipped), keeps _locked set across the hand-over, preserves the order of the waiters behind it, and releases the lock only when no live waiter is left; cancel() aborts every live waiter exactly once with operation_aborted and grants nobody; a per-operation cancellation aborts that waiter exactly once, empties its slot and never grants. NOT decided: 'at most one attempt at any time' as a statement over interleavings (needs the mutual-exclusion argument over schedules; strand assumed), shutdown_op.",
+   note="Bounded parts are labelled bounded and never counted as proved. std::deque modelled as vector; tracked handler type erased to a non-null handle; bound executors (asio::post/dispatch + prepend) are recording stubs.",
    design='5 C11')
 
-NOT_APPLICABLE = {
+NOT_APPLICABLE_OLD = {
  'C02': "liveness under fairness over unbounded fault sequences ('eventually completes once the broker stays reachable'): a function contract cannot state 'eventually', and there is no CBMC model of Boost.Asio scheduling; its function-local safety crumbs are carried under C03/C05 (DESIGN 5 C02)",
 }
+NOT_APPLICABLE = {}
+CLAIMED['C02'] = dict(
+   category='proof',
+   text="SAFETY FRAGMENT only, proved per continuation: write_op and read_op never complete with a transport error -- a lost connection (connection_aborted, not_connected, timed_out, connection_reset, broken_pipe, eof, operation_aborted while open, or the read-inactivity timeout) triggers exactly one async_reconnect on the stream it happened on and, after it, the caller is told try_again, never success and never the transport error; completions are only success (with the byte count), operation_aborted (client closed) or no_recovery; every continuation of publish_send_op (QoS 1/2), subscribe_op and unsubscribe_op answers try_again by re-sending THE SAME packet (same packet identifier; DUP set for an unacknowledged QoS 1/2 PUBLISH) and never completes the user handler on it unless the caller cancelled; BOUNDED: async_sender::resend() re-queues everything unwritten in order; replies::resend_unanswered() completes every waiter with try_again exactly once; sentry_op checks every 3 s and answers an overdue reply (replies::any_expired) with DISCONNECT 0x80 to force a reconnect. NOT DECIDED (and not decidable by function contracts): the liveness statement itself -- 'eventually completes once the broker stays reachable' over unbounded fault sequences needs fairness of the Asio scheduler and of the network; no CBMC model of that exists here (DESIGN 5 C02).",
+   note="Assumed: Asio invokes each handler exactly once; ec_t conflates error_code identity and value() (Windows codes 1236/121 compared numerically).",
+   design='5 C02')
 NOT_BUILT = "function-local contract fragment of DESIGN section 5 not built yet in this tree; the remainder of the property is schedule-quantified and outside per-function contracts"
 
 def main():
